@@ -44,4 +44,23 @@ def build(tier):
         case("flattened-field", "dropped", *pair(lambda n, w: TypeDef(n, "struct", "named", [Field("St", "a", (d if w else []) + ["#[ts(flatten)]"]), Field("String", "b")], derives=TS_ONLY, vals=False)))
         case("tuple-field", "dropped", *pair(lambda n, w: TypeDef(n, "struct", "tuple", [Field("i32", None, d if w else []), Field("String")], derives=TS_ONLY, vals=False)))
         case("type-and-field", "type", *pair(lambda n, w: TypeDef(n, "struct", "named", [Field("i32", "a", d if w else []), Field("String", "b")], attrs=(d if w else []), derives=TS_ONLY, vals=False)))
+    # documentation inside types that get flattened several levels up (text heuristics on the way)
+    for kind, text in (("unbalanced-open-paren", " see (appendix"), ("unbalanced-close-paren", " done) now"), ("brace-amp-brace", " has { a } & { b } inside"),
+                       ("pipe-and-amp", " a | b & c"), ("quote", " say \"hi\""), ("plain", " x")):
+        d1 = doc_attrs([text])
+
+        def mk(n, w):
+            e1 = TypeDef("E1" + n, "enum", variants=[Variant("A", "named", [Field("i32", "x", d1 if w else [])]), Variant("B", "unit")], derives=TS_ONLY, vals=False)
+            e2 = TypeDef("E2" + n, "enum", variants=[Variant("C", "tuple", [Field("i32")]), Variant("D", "unit")], derives=TS_ONLY, vals=False)
+            inner = TypeDef("Inner" + n, "struct", "named", [Field("E1" + n, "e1", ["#[ts(flatten)]"]), Field("E2" + n, "e2", ["#[ts(flatten)]"])], derives=TS_ONLY, vals=False)
+            return [e1, e2, inner]
+        wt, pt = mk("W", True), mk("P", False)
+        mid = TypeDef("Mid", "struct", "named", [Field("InnerW", "i", ["#[ts(flatten)]"])], derives=TS_ONLY, vals=False)
+        plain = TypeDef("Plain", "struct", "named", [Field("InnerP", "i", ["#[ts(flatten)]"])], attrs=['#[ts(rename = "Mid")]'], derives=TS_ONLY, vals=False)
+        out.append(Case({"family": "docs-in-files", "position": "field-of-twice-flattened-enum", "doc_kind": kind}, wt + pt + [mid, plain],
+                        ['ctx.c15_docs::<Mid, Plain>("Mid", "dropped", &[' + rs(text) + ']);', 'if ctx.prop == "C04" { ctx.c04::<Mid>("Mid"); }']))
+        mid2 = TypeDef("Mid", "struct", "named", [Field("bool", "own"), Field("InnerW", "i", ["#[ts(flatten)]"])], derives=TS_ONLY, vals=False)
+        plain2 = TypeDef("Plain", "struct", "named", [Field("bool", "own"), Field("InnerP", "i", ["#[ts(flatten)]"])], attrs=['#[ts(rename = "Mid")]'], derives=TS_ONLY, vals=False)
+        out.append(Case({"family": "docs-in-files", "position": "field-of-flattened-enum-with-sibling", "doc_kind": kind}, wt + pt + [mid2, plain2],
+                        ['ctx.c15_docs::<Mid, Plain>("Mid", "dropped", &[' + rs(text) + ']);']))
     return out
